@@ -107,7 +107,10 @@ class NDAdapter(Adapter):
             elif action == "Fill":
                 row, w, r = args
                 x = [self.pe.x(c) for c in row]
-                if w == 1 and self.we.den == 1 and self.we.num == 1 and self.we.kind == "pyint" and self.spelling % 2:
+                if w == 1 and self.we.den == 1 and self.we.num == 1 and self.we.kind == "pyint" and self.spelling % 4 == 3:
+                    o["h"] << x                        # the operator alias of fill (it returns nothing)
+                    obs["ret"] = o["h"].find_bin(x)
+                elif w == 1 and self.we.den == 1 and self.we.num == 1 and self.we.kind == "pyint" and self.spelling % 2:
                     obs["ret"] = o["h"].fill(x)
                 else:
                     obs["ret"] = o["h"].fill(guard.track(np.array(x)) if self.spelling % 2 else x, self.we.w(w))
